@@ -4,6 +4,7 @@ import (
 	"go/ast"
 	"go/token"
 	"go/types"
+	"strings"
 
 	"golang.org/x/tools/go/ssa"
 
@@ -34,7 +35,8 @@ func c10(r *core.Run) {
 	r.Explanation = "Decided clauses: (R1) interpreter visitFunctionBody: the pre-condition evaluation precedes the body call on every path, and every return after the body passes the post-condition evaluation (after `result` is declared); " +
 		"(R2) interpreter: the loop that gathers condition wrappers over a composite's/interface's functions has no early exit (every function is considered), and composite/interface declaration reaches it; " +
 		"(R3) compiler: desugarFunctionBlock reaches desugarPreConditions and desugarPostConditions, composite/interface desugaring collects inherited conditions, and compileFunctionBlock restores the enclosing function's post-condition index on every exit after changing it " +
-		"(a nested function cannot disable the enclosing function's post-conditions); every `return` compiles to a jump to the post-conditions when the function has any."
+		"(a nested function cannot disable the enclosing function's post-conditions); every `return` compiles to a jump to the post-conditions when the function has any; " +
+		"(R4) the interpreter's wrapper builders return without a wrapper only on their reviewed grounds; (R5) the compiler collects inherited conditions for every function and every special function of every interface."
 	r.NotDecided = "outcome equivalence of the two engines per program (C34); correctness of the post-condition rewrite (`before` extraction)."
 	w := r.W
 	named := func(n string) func(*types.Func) bool {
@@ -193,6 +195,107 @@ func c10(r *core.Run) {
 			"every path from a change of postConditionsIndex to a return registers the restoring defer", "postConditionsIndex can be changed without being restored: compiling a nested function disables the enclosing function's post-conditions")
 	}
 	r.Floor("R3.compiler", 5)
+
+	// R4 which functions get a condition wrapper: the paths on which the interpreter's wrapper builders return without wrapping
+	// (initializerFunctionWrapper, functionConditionsWrapper) keep the conditions of the reviewed ones — an initializer is
+	// skipped only if the interface declares none or it has no function block; a function only if it has no conditions
+	{
+		var fns []*ssa.Function
+		for _, n := range []string{"initializerFunctionWrapper", "functionConditionsWrapper"} {
+			fns = append(fns, mustFn(r, "R4.skips", "interpreter", "Interpreter", n))
+		}
+		got := map[string][]string{}
+		for _, fn := range fns {
+			if fn == nil {
+				continue
+			}
+			// paths that return a nil wrapper
+			pg, complete := core.PathGroundsTo(fn, 256, func(ret *ssa.Return) bool {
+				if len(ret.Results) != 1 {
+					return false
+				}
+				c, ok := ret.Results[0].(*ssa.Const)
+				return ok && c.IsNil()
+			})
+			if !complete {
+				r.Undecided("R4.skips", core.SSAKey(fn), "too many paths")
+			}
+			got[core.SSAKey(fn)] = core.SimplifyGrounds(pg)
+		}
+		if genMode() {
+			genJSON(r, "c10_skip_grounds", got)
+		} else {
+			var pinned map[string][]string
+			if r.Table("c10_skip_grounds", &pinned) {
+				for _, k := range sortedKeys(pinned) {
+					for _, c := range got[k] {
+						known := false
+						for _, pg := range pinned[k] {
+							if core.GroundCovers(c, pg) {
+								known = true
+							}
+						}
+						r.Check(known, "R4.skips", k+": no wrapper under "+c, 0, "a reviewed ground for not wrapping",
+							"the function returns without a condition wrapper on a ground that keeps the conditions of none of the reviewed ones (e.g. an initializer that declares only post-conditions): inherited conditions of that kind are not checked by the interpreter")
+					}
+				}
+			}
+		}
+	}
+	r.Floor("R4.skips", 3)
+
+	// R5 the compiler inherits the conditions of every function and every special function of every interface: in
+	// Desugar.inheritedFunctionsWithConditionsAndEvents the collecting call stands in (at least) two member loops and
+	// runs on every iteration of each
+	if top := mustFn(r, "R5.inheritall", "bbq/compiler", "Desugar", "inheritedFunctionsWithConditionsAndEvents"); top != nil {
+		inLoops := 0
+		var all []*ssa.Function
+		var collect func(f *ssa.Function)
+		collect = func(f *ssa.Function) {
+			all = append(all, f)
+			for _, a := range f.AnonFuncs {
+				collect(a)
+			}
+		}
+		collect(top)
+		for _, fn := range all {
+			inLoops += callsDominateBackEdges(r, "R5.inheritall", fn, func(o *types.Func) bool { return false }, "", "")
+			// calls through the local closure `addInheritedFunction`: a call of a function value bound in the enclosing function
+			for _, b := range fn.Blocks {
+				for _, in := range b.Instrs {
+					c, ok := in.(ssa.CallInstruction)
+					if !ok || c.Common().IsInvoke() || c.Common().StaticCallee() != nil {
+						continue
+					}
+					if !strings.Contains(core.OriginLeavesVia(c.Common().Value), "closure") && !isLocalClosureCall(c) {
+						continue
+					}
+					// inside a loop and dominating its back edges?
+					loops, ok2 := 0, true
+					for _, lb := range fn.Blocks {
+						for _, h := range lb.Succs {
+							if !h.Dominates(lb) || !h.Dominates(b) {
+								continue
+							}
+							if lb != b && !core.ReachableAfter(in, lb.Instrs[len(lb.Instrs)-1]) {
+								continue // the call is after this loop, not inside it
+							}
+							loops++
+							if !b.Dominates(lb) {
+								ok2 = false
+							}
+						}
+					}
+					if loops > 0 && ok2 {
+						inLoops++
+					}
+				}
+			}
+		}
+		r.Check(inLoops >= 2, "R5.inheritall", "bbq/compiler.(Desugar).inheritedFunctionsWithConditionsAndEvents: functions and special functions are all collected", top.Pos(),
+			itoa(inLoops)+" unconditional collecting calls inside member loops", "the inherited conditions are no longer collected for every member of every interface ("+itoa(inLoops)+" unconditional collecting call(s) inside member loops, 2 on the reviewed tree): e.g. only the first initializer of the first interface contributes, so the compiled constructor misses the init conditions of sibling or parent interfaces")
+	}
+	r.Floor("R5.inheritall", 1)
 }
 
 func constOfRel(w *core.World, rel, name string) string {
@@ -201,4 +304,36 @@ func constOfRel(w *core.World, rel, name string) string {
 		return ""
 	}
 	return c.Val().ExactString()
+}
+
+// isLocalClosureCall: the callee is a function value created by a MakeClosure of the enclosing function (possibly through a cell).
+func isLocalClosureCall(c ssa.CallInstruction) bool {
+	v := c.Common().Value
+	for d := 0; d < 4; d++ {
+		switch x := v.(type) {
+		case *ssa.MakeClosure:
+			return true
+		case *ssa.UnOp:
+			if al, ok := x.X.(*ssa.Alloc); ok {
+				if refs := al.Referrers(); refs != nil {
+					for _, ref := range *refs {
+						if st, ok := ref.(*ssa.Store); ok && st.Addr == al {
+							if _, isMC := st.Val.(*ssa.MakeClosure); isMC {
+								return true
+							}
+						}
+					}
+				}
+				return false
+			}
+			if fv, ok := x.X.(*ssa.FreeVar); ok {
+				_ = fv
+				return true // a captured function variable of the enclosing function
+			}
+			v = x.X
+		default:
+			return false
+		}
+	}
+	return false
 }
